@@ -3,7 +3,7 @@
     QidMapProofs.v, Mode.v. *)
 From Coq Require Import NArith String List Bool.
 From P9V Require Import Base.Str gen.ConstGen gen.FsGen20 Fsx.Readdir Fsx.Qid Fsx.QidArith Fsx.QidConc Fsx.MapperConc
-     Fsx.QidMap Fsx.QidMapProofs Fsx.Mode Fsx.FsGenSpec20.
+     Fsx.QidMap Fsx.QidMapProofs Fsx.Mode Fsx.LocalQidStable Fsx.LocalInfo Fsx.FsGenSpec20.
 Import ListNotations.
 Open Scope list_scope.
 Open Scope N_scope.
@@ -53,6 +53,7 @@ Theorem C20_local_steps : forall t n d i, encodeLikely d i = None ->
   let '(r, t', n') := local_to_qid t n d i in
   f_tbl s' = t' /\ f_next s' = n' /\ nth_error (f_thr s') 0 = Some (FDone (d, i) r).
 Proof. exact local_to_qid_is_run. Qed.
+Print Assumptions C20_local_steps.
 
 (** qids.Mapper (staticfs, composefs): every interleaving of concurrent QIDFor
     calls on any Mappers of one generator, each call being
@@ -94,17 +95,20 @@ Print Assumptions C20_mapper_seq.
     fallback counter hands out paths below 2^63 (inside the compact range) *)
 Theorem C20_wrap_needs_bound : inc64 (two64 - 1) = 0 /\ fst (fst (local_to_qid [] (two64 - 1) 0x100000801 7)) = 0.
 Proof. vm_compute. split; reflexivity. Qed.
+Print Assumptions C20_wrap_needs_bound.
 
 (** what the fixes repaired *)
 Theorem C20_mapper_unlocked_refuted :
   let s := crun false (cinit [(0%nat, 5); (0%nat, 5)]) [0; 0; 1; 1; 0; 1; 0; 1; 0; 1]%nat in
   nth_error (c_thr s) 0 = Some (MDone 0 5 1) /\ nth_error (c_thr s) 1 = Some (MDone 0 5 2).
 Proof. exact mapper_unlocked_refuted. Qed.
+Print Assumptions C20_mapper_unlocked_refuted.
 Theorem C20_ptrkey_refuted :
   let '(r1, t1, n1) := local_to_qid_ptrkey [] next0 0x100000801 7 in
   let '(r2, _, _) := local_to_qid_ptrkey t1 n1 0x100000801 7 in
   r1 <> r2.
 Proof. exact ptrkey_refuted. Qed.
+Print Assumptions C20_ptrkey_refuted.
 
 (** modes: for all 7 valid types and all 12-bit permission values (4096, incl.
     setuid, setgid, sticky) OSMode then ModeFromOS is the identity *)
@@ -122,13 +126,35 @@ Proof. exact qidtype_matches. Qed.
 Print Assumptions C20_qidtype.
 Theorem C20_qidtype_any : forall m, QIDType m = qidtype_of_type (FileType m).
 Proof. exact qidtype_of_filetype. Qed.
+Print Assumptions C20_qidtype_any.
+
+(** localfs, at the use site (Local.info): for every kind of file (7 types) and every
+    permission word, the FileMode derived from the (l)stat result is the st_mode
+    itself — what GetAttr reports as Attr.Mode — and the QID type info() computes
+    is the one of that file type *)
+Theorem C20_info_type : forall t p, In t valid_types -> p < 4096 ->
+  ModeFromOS (os_mode_of_stat (N.lor t p)) = N.lor t p /\
+  info_type (N.lor t p) = qidtype_of_type t /\ info_type (N.lor t p) = QIDType (N.lor t p).
+Proof. exact stat_mode_and_type. Qed.
+Print Assumptions C20_info_type.
+
+(** and info() is what Readdir, Walk and GetAttr hand out, unchanged and the same at every call *)
+Theorem C20_info_use_sites : forall t0 n0 s qe t1 n1 h1 t2 n2 qw t3 n3 h2 t4 n4 qg t5 n5,
+  local_entry_qid t0 n0 s = (qe, t1, n1) -> info_run t1 n1 h1 = (t2, n2) ->
+  local_walk_qid t2 n2 s = (qw, t3, n3) -> info_run t3 n3 h2 = (t4, n4) ->
+  local_getattr_qid t4 n4 s = (qg, t5, n5) ->
+  qw = qe /\ qg = qe /\ q_type qe = info_type (st_mode s).
+Proof. exact local_readdir_walk_getattr_agree. Qed.
+Print Assumptions C20_info_use_sites.
 
 (** the source the models transcribe is the one in the tree; Mapper.paths is only
     touched by functions that start with m.mu.Lock(); defer m.mu.Unlock() *)
 Theorem C20_source_shape : fs_qid_shape_ok = true.
 Proof. exact qid_shape_ok. Qed.
+Print Assumptions C20_source_shape.
 Theorem C20_paths_guarded : fs_mapper_paths_guarded = true.
 Proof. reflexivity. Qed.
+Print Assumptions C20_paths_guarded.
 
 (** non-vacuity *)
 Example C20_ex_likely :
